@@ -629,6 +629,21 @@ def parentSide (k : Kind) (env : Env) (during : List Op) : Shell :=
   let p0 := applyOps { env := e0 } (if k == .async then during else [])
   if k == .async then { p0 with env := { p0.env with jobs := p0.env.jobs.removeLast } } else p0
 
+/-- a process forked from the shell `w` (all state fields copied, the system handle = the forked process) -/
+def forkedCopy (copied : List (String × String)) (w : Env) : Env :=
+  { w with system := Proc.forkFrom copied w.mainPid w.system }
+
+/-- the environment the task of a subshell of kind `k` starts from, given the starter `env`: fork, then one
+    `subshellEntry` — for a job-controlled pipeline: fork + entry of the wrapper, fork + entry of the member -/
+def entryEnv (copied : List (String × String)) (k : Kind) (jc : Bool) (env : Env) : Env :=
+  match k with
+  | .paren => subshellEntry false (!jc) (forkedCopy copied env)
+  | .subst => subshellEntry false true (forkedCopy copied env)
+  | .async => subshellEntry (!jc) (!jc) (forkedCopy copied env)
+  | _ =>
+    if jc then subshellEntry false true (forkedCopy copied (subshellEntry false false (forkedCopy copied env)))
+    else subshellEntry false true (forkedCopy copied env)
+
 /-- what the child process of a subshell of kind `k` started from `sh` makes of `body` (its final state, its
     output, whether it was killed) -/
 def childShell (copied : List (String × String)) (k : Kind) (sh : Shell) (body : Shell → Shell) : Shell :=
@@ -697,31 +712,51 @@ def startEnv (c : Case) : Env :=
   { e0 with traps := st.traps, options := if c.internal then insertSorted "interactive" e0.options else e0.options,
             system := { e0.system with sys := st.sys, ttyAvail := c.tty } }
 
-/-- the innermost body: snapshot `C<d>`, the child's mutators, snapshot `D<d>` -/
-def innerBody (d : Nat) (ops : List Op) (sh : Shell) : Shell :=
-  let r := snapshot (applyOps (snapshot sh s!"C{d}") ops) s!"D{d}"
-  -- the last command of the snapshot (`echo`) succeeds
-  if r.halted.isSome then r else { r with env := { r.env with exitStatus := 0 } }
+/-! ### Programs of the modelled fragment
+
+Mutators, snapshots and subshell constructs of every kind, sequenced and nested to any depth. The programs of
+the sweep (`levelProg`, `caseProg`) are instances; the isolation theorems are stated for every `Prog`. -/
+
+inductive Prog where
+  /-- mutators run one after the other -/
+  | ops (l : List Op)
+  /-- a snapshot (`withTrap = false`: without the `trap` listing) -/
+  | snap (withTrap : Bool) (tag : String)
+  /-- "the last command succeeded": `$? := 0` in a live shell -/
+  | ok
+  /-- the EXIT trap at the end of the shell -/
+  | exitTrap
+  | seq (a b : Prog)
+  /-- a subshell of kind `k` running `body`; `during` = the starter's own mutators between `&` and `wait` -/
+  | sub (k : Kind) (body : Prog) (during : List Op)
+
+def runProg (copied : List (String × String)) : Prog → Shell → Shell
+  | .ops l, sh => applyOps sh l
+  | .snap w tag, sh => snapshotT w sh tag
+  | .ok, sh => if sh.halted.isSome then sh else { sh with env := { sh.env with exitStatus := 0 } }
+  | .exitTrap, sh => runExitTrap sh
+  | .seq a b, sh => runProg copied b (runProg copied a sh)
+  | .sub k body during, sh => runKind copied k sh (runProg copied body) during
 
 /-- the body of the subshell of level `j` given the kinds still to be entered and the mutators of the
-    intermediate levels: `C<j>`, the level's mutators, `B<j>`, the next subshell, `A<j>` — or the innermost body -/
-def levelBody (copied : List (String × String)) (child : List Op) : Nat → List Kind → List (List Op) → Shell → Shell
-  | j, [], _, sh => innerBody j child sh
-  | j, k :: ks, mids, sh =>
-    let sB := snapshot (applyOps (snapshot sh s!"C{j}") (mids.headD [])) s!"B{j}"
-    let sS := runKind copied k sB (levelBody copied child (j + 1) ks mids.tail) []
-    let sA := snapshot sS s!"A{j}"
-    if sA.halted.isSome then sA else { sA with env := { sA.env with exitStatus := 0 } }
+    intermediate levels: `C<j>`, the level's mutators, `B<j>`, the next subshell, `A<j>` — or, innermost,
+    `C<d>`, the child's mutators, `D<d>` -/
+def levelProg (child : List Op) : Nat → List Kind → List (List Op) → Prog
+  | j, [], _ => .seq (.snap true s!"C{j}") (.seq (.ops child) (.seq (.snap true s!"D{j}") .ok))
+  | j, k :: ks, mids =>
+    .seq (.snap true s!"C{j}") (.seq (.ops (mids.headD [])) (.seq (.snap true s!"B{j}")
+      (.seq (.sub k (levelProg child (j + 1) ks mids.tail) []) (.seq (.snap true s!"A{j}") .ok))))
 
 /-- the whole program of a case: prologue, `B0`, the subshell(s), `A0`, EXIT trap of the shell itself -/
+def caseProg (c : Case) : Prog :=
+  .seq (.ops c.pro) (.seq (.snap (!c.quiet) "B0")
+    (.seq (match c.kinds with
+        | [] => .ops []
+        | k :: ks => .sub k (levelProg c.child 1 ks c.mid) c.during)
+      (.seq (.snap true "A0") .exitTrap)))
+
 def runCase (copied : List (String × String)) (c : Case) : Shell :=
-  let sh0 : Shell := { env := startEnv c }
-  let shB := snapshotT (!c.quiet) (applyOps sh0 c.pro) "B0"
-  let shS := match c.kinds with
-    | [] => shB
-    | k :: ks => runKind copied k shB (levelBody copied c.child 1 ks c.mid) c.during
-  let shA := snapshot shS "A0"
-  runExitTrap shA
+  runProg copied (caseProg c) { env := startEnv c }
 
 /-- the observation line -/
 def observation (sh : Shell) : String :=
